@@ -279,3 +279,143 @@ func VerifC24Conform() {
 	vCover("end")
 	vAssert(verifIsEOF(err), "R's reader loop accepts every message S sent (no protocol violation)")
 }
+
+// ---------------------------------------------------------------- one-step lemmas
+
+// VerifC24Step: the flow-control arithmetic, one operation from an arbitrary
+// state with 64-bit symbolic windows.
+//
+//   write: from any send window w, Write puts at most w bytes on the wire and
+//          lowers the window by exactly what it sent (so "window <= free space
+//          of the peer's receive buffer" is preserved), and leaves the
+//          readiness token exactly when window > 0;
+//   read:  Read hands the enqueue loop an increment equal to the bytes it
+//          consumed, and never a zero increment (the peer rejects those); the
+//          increment, carried by the real enqueue/write/read loops, raises the
+//          peer's send window by exactly that amount.
+func VerifC24Step() {
+	wire := &verifWire{}
+	heartbeats := make(chan struct{}, 1)
+	if vChoose(2) == 0 {
+		m := verifNewMux(false, 4, 1, 1)
+		s := newStream(m, 1, 4)
+		close(s.established)
+		m.streams[1] = s
+		m.nextOutboundStreamIdentifier = 3
+		vLabel("window")
+		window := vU64()
+		vLabel("")
+		s.sendWindow = window
+		if window != 0 {
+			s.sendWindowReady <- struct{}{}
+		}
+		k := vRange(0, vParam("maxlen", 3))
+		var count int
+		var err error
+		if uint64(k) <= window {
+			count, err = s.Write(vBytes(k))
+			vCover("write-within-window")
+			vAssert(count == k && err == nil, "step: a Write within the window completes")
+		} else {
+			// beyond the window: ended by a write deadline (see C23)
+			s.writeDeadlineSet = make(chan time.Time, 1)
+			s.writeDeadlineSet <- time.Unix(1, 0)
+			count, err = s.Write(vBytes(k))
+			vCover("write-beyond-window")
+			vAssert(err != nil, "step: a Write beyond the window does not complete")
+		}
+		verifDriveWrite(m, wire)
+		// data messages on the wire: kind, identifier 1, 16-bit length, payload
+		sent := 0
+		for len(wire.data) > 0 {
+			vAssert(len(wire.data) >= 4 && wire.data[0] == byte(messageKindStreamData) && wire.data[1] == 1, "step: only data messages of the stream are emitted")
+			if len(wire.data) < 4 {
+				return
+			}
+			n := int(wire.data[2])<<8 | int(wire.data[3])
+			vAssert(n > 0 && len(wire.data) >= 4+n, "step: data message well formed and non-empty")
+			if n <= 0 || len(wire.data) < 4+n {
+				return
+			}
+			sent += n
+			wire.data = wire.data[4+n:]
+		}
+		vAssert(uint64(sent) <= window, "step: data sent never exceeds the send window")
+		vAssert(sent == count, "step: Write reports what it sent")
+		vAssert(s.sendWindow == window-uint64(sent), "step: the window is lowered by exactly the bytes sent")
+		vAssert((len(s.sendWindowReady) == 1) == (s.sendWindow > 0), "step: window readiness token present exactly when the window is non-zero")
+		return
+	}
+
+	// read step
+	size := vParam("window", 3)
+	R := verifNewMux(true, size, 1, 1)
+	S := verifNewMux(false, size, 1, 1)
+	ss := verifOpenStream(S)
+	verifDriveWrite(S, wire)
+	used := vRange(1, size)
+	payload := vBytes(used)
+	var rs *Stream
+	first := true
+	wire.onEmpty = func() {
+		if !first {
+			return
+		}
+		first = false
+		stream, err := R.acceptOneStream(context.Background())
+		if err != nil {
+			vStop()
+		}
+		rs = stream
+		back := &verifWire{}
+		verifDriveWrite(R, back)
+		S.read(back, heartbeats)
+		// any send window on S's side that the peer's buffer covers
+		buffer := <-S.writeBufferAvailable
+		buffer.encodeStreamDataMessage(ss.identifier, payload)
+		S.writeBufferPending <- buffer
+		verifDriveWrite(S, wire)
+	}
+	err := R.read(wire, heartbeats)
+	vAssert(verifIsEOF(err) && rs != nil, "step: setup")
+	if rs == nil {
+		return
+	}
+	vLabel("peer-window")
+	peerWindow := vU64()
+	vLabel("")
+	vAssume(peerWindow <= uint64(size-used)) // invariant: window <= free space of the buffer
+	ss.sendWindow = peerWindow
+	for len(ss.sendWindowReady) > 0 {
+		<-ss.sendWindowReady
+	}
+	if peerWindow != 0 {
+		ss.sendWindowReady <- struct{}{}
+	}
+	k := vRange(vParam("minread", 0), size)
+	count, err := rs.Read(make([]byte, k))
+	vCover("read-step")
+	if k == 0 {
+		vCover("zero-length-read")
+	}
+	vAssert(err == nil && count >= 0 && count <= used && count <= k, "step: Read returns buffered bytes")
+	vAssert(len(R.enqueueWindowIncrement) <= 1, "step: at most one increment per Read")
+	if len(R.enqueueWindowIncrement) == 1 {
+		u := <-R.enqueueWindowIncrement
+		vAssert(u.stream == rs.identifier, "step: increment for the stream that was read")
+		vAssert(u.amount == uint64(count), "step: increment equals the bytes consumed")
+		vAssert(u.amount > 0, "step: no zero increment is handed to the enqueue loop (the peer rejects it)")
+		R.enqueueWindowIncrement <- u
+		before := len(R.writeBufferPending)
+		verifRunEnqueue(R)
+		if len(R.enqueueWindowIncrement) != 0 || len(R.writeBufferPending) == before {
+			vStop()
+		}
+		back := &verifWire{}
+		verifDriveWrite(R, back)
+		err := S.read(back, heartbeats)
+		vAssert(verifIsEOF(err), "step: the peer's reader loop accepts the increment")
+		vAssert(ss.sendWindow == peerWindow+uint64(count), "step: the peer's send window grows by exactly the bytes consumed")
+		vAssert(ss.sendWindow <= uint64(size-used+count), "step: window <= free space of the buffer, again")
+	}
+}
